@@ -5,3 +5,4 @@ import Properties.C04
 import Properties.C20
 import Properties.C13
 import Properties.C08
+import Properties.C05
